@@ -33,6 +33,24 @@ def _worker(args):
         s.known = set(active)
         g['fn'](s, **g.get('args', {}))
         out = s.report()
+        mism = [r for r in out['results'] if r['verdict'] == 'inconclusive' and 'encoder-mismatch' in (r.get('detail') or '') and r.get('mode') == 'rank']
+        if mism and g.get('rank_fallback'):
+            # a rank-mode model whose fields are unconstrained did not reproduce: re-ask with the ranks tied to the
+            # (major, minor, patch, has-prerelease) fields the code may have read (DESIGN.md 2.5), and keep that answer
+            s2 = Session(gname + '+hybrid', tier, seed, ws, binary, g.get('timeout_s'))
+            s2.known = set(active)
+            g['fn'](s2, **dict(g.get('args', {}), hybrid=True))
+            byname = {r['ob']: r for r in s2.results}
+            for r in out['results']:
+                if r in mism and r['ob'] in byname:
+                    nr = byname[r['ob']]
+                    r.clear()
+                    r.update(nr)
+                    r['note'] = 're-asked in hybrid mode after a rank-mode model did not reproduce natively'
+            o2 = s2.report()
+            for k, v in o2['stats'].items():
+                if isinstance(v, (int, float)):
+                    out['stats'][k] = out['stats'].get(k, 0) + v
     except workspace.Inconclusive as e:
         out = {'group': gname, 'results': [{'ob': gname, 'verdict': 'inconclusive', 'detail': str(e)}], 'stats': {}}
     except Exception as e:          # Unsupported MIR constructs, z3 errors, bugs of the machinery: never a verdict
